@@ -20,8 +20,10 @@ func FilterIgnoredPaths(paths, ignore []string, checkFileExists bool, pathPrefix
 		return paths, nil
 	}
 
-	// if set, pathPrefix is normalized to end with a platform appropriate separator
-	if pathPrefix != "" && !strings.HasSuffix(pathPrefix, rio.PathSeparator) {
+	// pathPrefix is normalized to end with a platform appropriate separator. When not set,
+	// absolute paths are taken to be relative to the file system root, just as the Rego
+	// matcher does (see _file_name_relative_to_root in main.rego)
+	if !strings.HasSuffix(pathPrefix, rio.PathSeparator) {
 		pathPrefix += rio.PathSeparator
 	}
 
